@@ -293,3 +293,33 @@ def format_state_obligations(tree, modname):
     if bad:
         return [("%s changes process-wide formatting state with %s at line %d: the text of a tree written with str(<label array>) depends on it" % (modname, d, ln), False, ln) for d, ln in bad]
     return [("%s never changes numpy's print options / the locale (str(<label array>) is the full text of a tree)" % modname, True, 0)]
+
+
+# F8: what a stage parses does not depend on who filled the shared symbol table before.  A function of the generation / fitting stages that parses stored function strings or
+# recorded substitutions with the module-level table (`sympy.sympify(.., locals=L)` with L the table or an alias of it) registers the real parameter symbols itself, earlier in the
+# same call on every path: a top-level statement of the function body before the first parse that contains the registering store  L['a%i' % i] = <symbols>[i]  (its shape is F3's
+# obligation).  Without it the parse gives plain Symbol('a0') in a fresh process and Symbol('a0', real=True) after a generation call in the same process.
+def parse_table_obligations(fnode):
+    aliases = {"sympy_locs"}
+    for n in ast.walk(fnode):
+        if isinstance(n, ast.Assign) and len(n.targets) == 1 and isinstance(n.targets[0], ast.Name) and isinstance(n.value, ast.Name) and n.value.id in aliases:
+            aliases.add(n.targets[0].id)
+    parses = []
+    for k, st in enumerate(fnode.body):
+        for n in ast.walk(st):
+            if isinstance(n, ast.Call) and (_dotted(n.func) or "").split(".")[-1] == "sympify":
+                for kw in n.keywords:
+                    if kw.arg == "locals" and isinstance(kw.value, ast.Name) and kw.value.id in aliases:
+                        parses.append((k, n.lineno))
+    if not parses:
+        return []
+    first_k, first_line = min(parses)
+    reg = None
+    for k, st in enumerate(fnode.body[:first_k]):
+        for n in ast.walk(st):
+            if isinstance(n, ast.Assign) and len(n.targets) == 1 and isinstance(n.targets[0], ast.Subscript) and isinstance(n.targets[0].value, ast.Name) and \
+                    n.targets[0].value.id in aliases and isinstance(n.targets[0].slice, ast.BinOp) and isinstance(n.targets[0].slice.left, ast.Constant) and \
+                    n.targets[0].slice.left.value == "a%i":
+                reg = n.lineno
+    return [("the parse with the shared symbol table at line %d is preceded, in the same call, by the registration of the parameter symbols%s" % (
+        first_line, (" (line %d)" % reg) if reg else ""), reg is not None, first_line)]
